@@ -2,6 +2,7 @@ package expr
 
 import (
 	"fmt"
+	"reflect"
 )
 
 // Dup creates a copy the given data type.
@@ -55,7 +56,7 @@ func (d *dupper) DupAttribute(att *AttributeExpr) *AttributeExpr {
 		Bases:        att.Bases,
 		Validation:   valDup,
 		Meta:         metaDup,
-		DefaultValue: att.DefaultValue,
+		DefaultValue: dupValue(att.DefaultValue),
 		DSLFunc:      att.DSLFunc,
 		UserExamples: att.UserExamples,
 		finalized:    att.finalized,
@@ -101,10 +102,23 @@ func (d *dupper) DupType(t DataType) DataType {
 		dupAtt := d.DupAttribute(actual.Attribute())
 		dp.SetAttribute(dupAtt)
 
-		// Make sure that if we are dupping a generated type we also put
-		// the dup in the generated type list so that it gets properly
-		// eval'd.
 		if rt, ok := dp.(*ResultTypeExpr); ok {
+			// The views belong to the result type: give the dup its own so
+			// that changing them does not change the original.
+			if rt.Views != nil {
+				views := make([]*ViewExpr, len(rt.Views))
+				for i, v := range rt.Views {
+					views[i] = &ViewExpr{
+						AttributeExpr: d.DupAttribute(v.AttributeExpr),
+						Name:          v.Name,
+						Parent:        rt,
+					}
+				}
+				rt.Views = views
+			}
+			// Make sure that if we are dupping a generated type we also put
+			// the dup in the generated type list so that it gets properly
+			// eval'd.
 			if GeneratedResultType(rt.Identifier) != nil {
 				GeneratedResultTypes.Append(rt)
 			}
@@ -113,4 +127,44 @@ func (d *dupper) DupType(t DataType) DataType {
 		return dp
 	}
 	panic("unknown type " + fmt.Sprintf("%T", t))
+}
+
+// dupValue returns a copy of v in which the slices and maps are duplicated
+// recursively so that a default value can be changed in place without changing
+// the value it was copied from.
+func dupValue(v any) any {
+	if v == nil {
+		return nil
+	}
+	rv := reflect.ValueOf(v)
+	switch rv.Kind() {
+	case reflect.Slice:
+		if rv.IsNil() {
+			return v
+		}
+		c := reflect.MakeSlice(rv.Type(), rv.Len(), rv.Len())
+		for i := 0; i < rv.Len(); i++ {
+			if e := dupValue(rv.Index(i).Interface()); e != nil {
+				c.Index(i).Set(reflect.ValueOf(e))
+			}
+		}
+		return c.Interface()
+	case reflect.Map:
+		if rv.IsNil() {
+			return v
+		}
+		c := reflect.MakeMapWithSize(rv.Type(), rv.Len())
+		iter := rv.MapRange()
+		for iter.Next() {
+			e := dupValue(iter.Value().Interface())
+			if e == nil {
+				c.SetMapIndex(iter.Key(), reflect.Zero(rv.Type().Elem()))
+				continue
+			}
+			c.SetMapIndex(iter.Key(), reflect.ValueOf(e))
+		}
+		return c.Interface()
+	default:
+		return v
+	}
 }
